@@ -60,6 +60,39 @@ CHECKS = {
             "stringify leaves no non-finite number outside metadata; unstringify inverts it and touches only deme/migration start_time and the two "
             "defaults; a null reachable by the walker outside top-level metadata is refused. That all six entry points apply the pipeline, and nulls "
             "inside nested lists (caught by type validation), are checked on the implementation."),
+    "C07": ("translation_validation", "ms semantics (coq/Spec/MsSem.v) run on every emitted command and compared with the graph + exact correspondence of Model/ToMs.v; structural Coq theorems about the emitted event list",
+            "Every command to_ms emits for generated ms-expressible graphs (any ancestry shape, coincident times, extinct demes, chained pulses, sawtooth "
+            "histories) and N0 values is interpreted by an executable transcription of the ms manual's backwards-time rules and compared with the graph: "
+            "sizes and incoming rates at two interior points of every interval of the common refinement of both sides' boundaries (exhaustive for "
+            "piecewise-exponential functions), lineage-movement matrices at every event time; Model/ToMs.v is compared bit for bit with the implementation's "
+            "event list; graphs outside the class must be refused. Theorems in coq/Props/C07.v concern the model's event list (numbering, sorting, refusal)."),
+    "C08": ("translation_validation", "ms semantics run on every generated command and compared with the graph from_ms returns + exact correspondence of Model/FromMs.v + Coq proof that every returned graph is Valid",
+            "Generated command lines over all supported options (time coincidences, shuffled order, ignored options) are converted by the implementation; the "
+            "returned graph is compared with the ms semantics of the command (sizes, rates, lineage movements), validated, and compared exactly with the model "
+            "of build_graph (whose result is proved Valid); ignored options, optional names and the order of commuting same-time options are checked. "
+            "Known findings F8, F9 are reported as such."),
+    "C09": ("translation_validation", "graph -> to_ms -> from_ms compared semantically with the original (coq/Spec/SemEquiv.v) + Coq theorems on the fixed-point rendering + option print/parse on the implementation",
+            "The graph returned by from_ms(to_ms(g, N0), N0, names) is compared with g in generations by the extracted semantic comparer with a tolerance "
+            "derived from the ten-decimal rendering of negative growth rates; every kind of option record with awkward finite values is printed, parsed back by "
+            "the library's parser and compared; the fixed-point text is compared digit for digit with coq/Model/FloatStr.v, for which the error bound and sign are proved."),
+    "C17": ("fault_enumeration", "Coq proof of the context-manager / generator state machines (all bodies, all next/close sequences) + fault enumeration on the implementation with builtins.open wrapped",
+            "coq/Model/Files.v models _open_file_polymorph and the load_all generator; it is proved that every owned handle is closed on every exit of an "
+            "arbitrary body and under every sequence of next()/close() calls, that caller streams are never closed, and that an unstarted generator opens "
+            "nothing. CPython's with/generator semantics are modelled, not verified; the implementation is driven through every (entry point, target kind, "
+            "failure point) triple."),
+    "C18": ("proof", "Coq frame theorem for a store-with-references model of _copy_unshared + mutation-logging containers and Builder histories on the implementation",
+            "coq/Model/Heap.v: the copy fromdict takes consists of fresh, unshared nodes, so no sequence of mutations by a consumer that starts from the copy can "
+            "reach or change the caller's store (frame theorem), and the copy denotes the same value; determinism is by construction of the functional model "
+            "(Model/Resolve.v, tied by correspondence). The implementation is run on documents built from containers that log every mutating call, on success "
+            "and on every failure path, and on Builder histories with later mutation of inputs and of returned dictionaries."),
+    "C19": ("proof", "Coq proof of the dispatch / look-ahead model (coq/Model/Cli.v) + byte comparison of the in-process CLI with the library calls and exit statuses through real processes",
+            "The two-document look-ahead loses, duplicates and reorders nothing; zero documents print nothing, one prints exactly the selected renderer's output, "
+            "several documents with a non-YAML output are an error with no output, several in YAML print every document up to the first failing one. The "
+            "renderers are abstract in the model; byte equality with demes.dump/dumps/dump_all/to_ms/from_ms on the loaded graphs is checked on the implementation."),
+    "C20": ("other", "deterministic executed-line counts over ten families and sizes up to 32/64 with a growth-exponent test + Coq lower bound for the subset search of simplification",
+            "Step counts of every public operation are measured on the implementation and their growth exponent compared with a low-degree bound; the one "
+            "super-polynomial operation (the subset search in asdict_simplified, hence str/dumps by default) is a known finding whose exponential lower bound on "
+            "rings is a theorem about Model/Simplify.v. Polynomial upper bounds for the other operations are measured, not proved."),
 }
 
 NOT_YET = {
